@@ -119,7 +119,7 @@ fn run(bound: usize) {
         OLD_LEN = old_len;
         NEW_LEN = n;
     }
-    let ret = kani::block_on(st.set_rules(new_rules));
+    let ret = run_ready(st.set_rules(new_rules));
 
     // expected outcome from the PROPERTY: accepted iff every rule compiles/type-checks and names deny or an existing upstream
     let mut all_ok = true;
@@ -171,4 +171,10 @@ fn set_rules_cover() {
     unsafe { kani::cover!(N_GUARDS >= 1 && STORED.len == 2 && stored_is_new()); kani::cover!(N_GUARDS == 0 && N_INIT == 2); kani::cover!(N_GUARDS == 0 && N_INIT == 1); }
 }
 
+/// every stub future is immediately ready, so the task completes within one poll (cheaper than kani::block_on's loop)
+pub fn run_ready<F: std::future::Future>(f: F) -> F::Output {
+    let mut f = std::pin::pin!(f);
+    let mut cx = std::task::Context::from_waker(std::task::Waker::noop());
+    match f.as_mut().poll(&mut cx) { std::task::Poll::Ready(v) => v, std::task::Poll::Pending => panic!("stub future pending") }
+}
 fn main() {}
